@@ -564,7 +564,7 @@ func ZZVerifC08() {
 	}
 
 	scs := z8Scenarios(thorough)
-	budget := 100 * gotime.Second
+	budget := 200 * gotime.Second
 	if thorough {
 		budget = 15 * gotime.Minute
 	}
